@@ -259,6 +259,7 @@ CHECKS["C06"] = {
         H("opentype/gtab", _S, "VerifH_C06_pair", ["applied"], quick={"params": {"maxlen": 2}, "timeout": 280}, thorough={"params": {"maxlen": 3}, "timeout": 2400}),
         H("opentype/gtab", _S, "VerifH_C06_pairclass", ["applied"], quick={"params": {"maxlen": 2}, "timeout": 280, "shards": 2}, thorough={"params": {"maxlen": 3}, "timeout": 2400, "shards": 3}),
         H("opentype/gtab", _S, "VerifH_C06_pairresume", ["applied"], quick={"timeout": 280}),
+        H("opentype/gtab", _S, "VerifH_C06_nestedfilter", ["applied"], quick={"timeout": 280}),
         H("opentype/gtab", _S, "VerifH_C06_context", ["applied"], quick={"params": {"maxlen": 2}, "timeout": 280}, thorough={"params": {"maxlen": 3}, "timeout": 2400}),
         H("opentype/gtab", _S7, "VerifH_C07_scratch", ["applied"], quick={"timeout": 280, "shards": 6}),
         H("opentype/gtab", _S, "VerifH_C06_markbase", ["applied"], quick={"timeout": 280}),
